@@ -15,6 +15,7 @@
 package ctfe
 
 import (
+	"bytes"
 	"context"
 	"crypto/sha256"
 	"fmt"
@@ -179,6 +180,11 @@ func (s *indirectIssuanceChainService) getByHash(ctx context.Context, hash []byt
 	chain, err = s.storage.FindByKey(ctx, hash)
 	if err != nil {
 		return nil, err
+	}
+	// The chain is addressed by its hash: never serve (or cache) stored bytes
+	// that no longer match it.
+	if !bytes.Equal(issuanceChainHash(chain), hash) {
+		return nil, fmt.Errorf("issuance chain read from storage does not match its hash %x", hash)
 	}
 
 	// If there is any error from cache set, do not return the error because
